@@ -33,9 +33,10 @@ CLAIMS = {
    note=TB + "checks/ref/mldsa.py (FIPS 204 Algorithms 2, 4, 7, OIDs read from the standard) is the oracle for the unproved part.",
    tech="Lean 4 proof of the external formatting layer over translated constants + differential execution against a FIPS 204 reference (all modes, key provenances, rate-edge message lengths)"),
  'C04': dict(cat='proof', ref='DESIGN 5 C04',
-   text="Partial proof + differential execution. Proved in Lean: the RNG-driven key generation is the seeded one on the 32 bytes drawn (or Err), ignores the rest of the generator, splits H(xi||k||l) into rho / rho' / K as "
-        "Algorithm 6 line 1, and both key structs share rho and tr. Not proved: the NTT-domain computation of t and the struct-to-bytes inversion equal Algorithm 6; decided on every run by byte comparison with a Python "
-        "transcription of Algorithm 6 through both entry points and struct-level comparison with the Lean model.",
+   text="Lean theorems for every seed (both build modes): generating a pair from a seed and serialising both keys returns exactly the bytes of Algorithm 6 written with exact arithmetic modulo q (key_generation_is_algorithm_6: "
+        "H(xi||k||l) split, ExpandS, ExpandA, t = NTT^-1(A_hat.NTT(s1)) + s2 mod q by exact butterflies, Power2Round, pkEncode, tr = H(pk), skEncode), as values of the model's result type (so it never panics); the RNG-driven key generation "
+        "is the seeded one on the 32 bytes drawn (or Err) and ignores the rest of the generator. The Lean specification reuses the model's sampler / encoder transcriptions; it and the crate are compared on every run with a Python "
+        "transcription of Algorithm 6 through both entry points (byte level) and at struct level, including seeds that hit rare sampler events (corpus).",
    note=TB + "checks/ref/mldsa.py (Algorithm 6) is the oracle for the unproved part.",
    tech="Lean 4 proof of the RNG wrapper and seed split + differential execution against a FIPS 204 reference"),
  'C06': dict(cat='proof', ref='DESIGN 5 C06',
